@@ -359,6 +359,17 @@ def check(ctx):
     sl = [s for s in walk_own(rt.node) if isinstance(s, ast.Assign) and norm(s.targets[0]).endswith('.needs_resending')]
     ctx.inst('R7', rt, 'radio=not-safelink', len(sl) == 1 and norm(sl[0].value) == 'not self._has_safelink',
              'radio link needs resending exactly when safelink is off; found %s' % [norm(s) for s in sl])
+    # ... and the flag it is computed from is final by then: no store to the safelink flag is reachable from the publication
+    # (published before the negotiation, a safelink link is told to resend and every slow reply is answered with a duplicate request)
+    if len(sl) == 1 and isinstance(sl[0].value, ast.UnaryOp):
+        gr = cfg_of(rt)
+        flag_ = norm(sl[0].value.operand)
+        pub = gr.node_of(sl[0])
+        later = [n for n in gr.nodes if n.kind == 'stmt' and isinstance(n.ast, (ast.Assign, ast.AugAssign)) and
+                 any(norm(t) == flag_ for t in (n.ast.targets if isinstance(n.ast, ast.Assign) else [n.ast.target]))]
+        stale = pub is not None and bool(later) and gr.path_avoiding(pub, later) is not None
+        ctx.inst('R7', rt, 'radio-flag-final-when-published', pub is not None and not stale,
+                 'needs_resending is derived from %s after the last store to it (a store is still reachable from the publication: %s)' % (flag_, stale))
 
 
 def header_normalisation_rule(ctx, rule):
@@ -431,6 +442,8 @@ def init_value(f):
 
 
 VARIANTS = [
+    M('R7', 'cflib/crtp/radiodriver.py', "        # Try up to 10 times to enable the safelink mode\n", "        self._link.needs_resending = not self._has_safelink\n        # Try up to 10 times to enable the safelink mode\n", 'flag published before the negotiation',
+      extra=[('cflib/crtp/radiodriver.py', "                break\n        self._link.needs_resending = not self._has_safelink\n", "                break\n")]),
     M('R9', 'cflib/crtp/usbdriver.py', "                self.cfusb.close()\n        except Exception as e:", "                self.cfusb.close()\n                self.cfusb = None\n        except Exception as e:",
       'usb handle kept when the close fails', extra=[('cflib/crtp/usbdriver.py', "            pass\n        self.cfusb = None\n", "            pass\n")]),
     M('R1', CF, "                if len(expected_reply) > 0 and not resend and \\\n                        self.link.needs_resending:", "                if len(expected_reply) > 0 and not resend:", 'arm without needs_resending'),
